@@ -24,6 +24,7 @@ EXPLANATION = (
     "capacity test dominate the row stores; R5 the no-record path stores only to n_evals / fun_eval_time; R6 the merge is the "
     "precision-weighted mean / combined SD (sympy identity); R7 n_evals is incremented exactly once on each path. Decides the "
     "structure of the record routine on all paths, not numeric values."
+    " R3 reads the parameter roles off the stores and binds call sites by name. R6 also forbids integer-truncating operators (np.reciprocal, //) on values not proven float."
 )
 
 ARGWHERE = {"np.argwhere", "np.nonzero", "np.flatnonzero", "np.where"}
